@@ -283,24 +283,35 @@ def _cut_certificates(msg):
         return None
 
 
-def run_real(world, data):
-    """Feed `data` to the subject.  Returns (oracle records, outcome tokens, exception or None)."""
-    from cryptography import x509
-    from cryptography.exceptions import InvalidSignature, UnsupportedAlgorithm
-    from cryptography.hazmat.primitives.asymmetric import ec, ed448, ed25519, rsa
-    from aioquic.quic.connection import QuicConnectionError
-    tls = world.tls
-    ctx = world.subject
-    records = []
-    real_dispatch = ctx._handle_reassembled_message
-    real_decode = tls.decode_public_key
-    real_verify = tls.verify_certificate
+class Recorder:
+    """Wraps the hooks of ONE tls.Context (handle_message, _handle_reassembled_message, alpn_cb, get_session_ticket_cb) and
+    the module functions tls.decode_public_key / tls.verify_certificate while installed; records, per handle_message call, one
+    oracle record per dispatched message (`calls`: list of lists).  Used for the harness' own Contexts (run_real) and for the
+    tls.Context inside a real QuicConnection (frames suite of c05.py: the transport-parameter verdict then comes from the real
+    QuicConnection._alpn_handler)."""
 
-    def new_record(message_type, input_buf):
+    def __init__(self, tls, ctx, holder=None, wrap_callbacks=False):
+        self.tls, self.ctx = tls, ctx
+        self.holder = holder            # object whose .rec the harness callbacks fill (World); else self
+        self.calls = []
+        self.records = []
+        self.rec = {}
+        self.wrap_callbacks = wrap_callbacks
+
+    def _cur(self):
+        return self.holder.rec if self.holder is not None else self.rec
+
+    def _new_record(self, message_type, input_buf):
+        from cryptography import x509
+        from cryptography.exceptions import InvalidSignature, UnsupportedAlgorithm
+        from cryptography.hazmat.primitives.asymmetric import ec, ed448, ed25519, rsa
+        tls, ctx = self.tls, self.ctx
         msg = bytes(input_buf.data_slice(0, input_buf.capacity))
         r = {"share": [], "tp": (0, 0), "ticket": -1, "binder": 1, "load": 1, "pubkey": 1, "sig": 1, "vcert": 0, "mac": 1}
-        world.rec = r
-        records.append(r)
+        if self.holder is not None:
+            self.holder.rec = r
+        self.rec = r
+        self.records.append(r)
         st = ctx.state.value
         try:
             if message_type == 20 and st == 6:
@@ -341,56 +352,219 @@ def run_real(world, data):
         except Exception:
             pass
 
-    def dispatch(message_type, input_buf, output_buf):
-        new_record(message_type, input_buf)
-        return real_dispatch(message_type=message_type, input_buf=input_buf, output_buf=output_buf)
+    def install(self):
+        tls, ctx = self.tls, self.ctx
+        self.real_dispatch = real_dispatch = ctx._handle_reassembled_message
+        self.real_decode = real_decode = tls.decode_public_key
+        self.real_verify = real_verify = tls.verify_certificate
+        real_handle = ctx.handle_message
+        me = self
 
-    def decode(key_share):
-        try:
-            pk = real_decode(key_share)
-        except tls.AlertIllegalParameter:
-            world.rec.setdefault("share", []).append(1)
-            raise
-        world.rec.setdefault("share", []).append(0 if (pk is None or _exchange_ok(pk)) else 2)
-        return pk
+        def dispatch(message_type, input_buf, output_buf):
+            me._new_record(message_type, input_buf)
+            return real_dispatch(message_type=message_type, input_buf=input_buf, output_buf=output_buf)
 
-    def verify(**kw):
-        try:
-            real_verify(**kw)
-        except tls.AlertCertificateExpired:
-            world.rec["vcert"] = 1
-            raise
-        except tls.AlertBadCertificate:
-            world.rec["vcert"] = 2
-            raise
-        except Exception as e:
-            world.rec["vcert"] = 5 if type(e).__name__ == "CertificateError" else 4
-            raise
+        def decode(key_share):
+            try:
+                pk = real_decode(key_share)
+            except tls.AlertIllegalParameter:
+                me._cur().setdefault("share", []).append(1)
+                raise
+            me._cur().setdefault("share", []).append(0 if (pk is None or _exchange_ok(pk)) else 2)
+            return pk
 
-    ctx._handle_reassembled_message = dispatch
-    tls.decode_public_key = decode
-    tls.verify_certificate = verify
+        def verify(**kw):
+            try:
+                real_verify(**kw)
+            except tls.AlertCertificateExpired:
+                me._cur()["vcert"] = 1
+                raise
+            except tls.AlertBadCertificate:
+                me._cur()["vcert"] = 2
+                raise
+            except Exception as e:
+                me._cur()["vcert"] = 5 if type(e).__name__ == "CertificateError" else 4
+                raise
+
+        def handle(data, output_buf):
+            me.records = []
+            me.calls.append(me.records)
+            try:
+                return real_handle(data, output_buf)
+            except tls.AlertHandshakeFailure as e:
+                if "PSK validation failed" in str(e) and me.records:
+                    me.records[-1]["binder"] = 0
+                raise
+
+        ctx._handle_reassembled_message = dispatch
+        ctx.handle_message = handle
+        tls.decode_public_key = decode
+        tls.verify_certificate = verify
+        self._cbs = None
+        if self.wrap_callbacks:
+            from aioquic.quic.connection import QuicConnectionError
+            real_alpn, real_fetch = ctx.alpn_cb, ctx.get_session_ticket_cb
+            self._cbs = (real_alpn, real_fetch)
+
+            def alpn(proto):
+                try:
+                    return real_alpn(proto)
+                except QuicConnectionError as e:
+                    # `No QUIC transport parameters received` is decided by the model itself (for/else); every other
+                    # QuicConnectionError is the verdict on the parameters
+                    if int(e.error_code) != 0x100 + 109:
+                        me._cur()["tp"] = (int(e.error_code), -1 if e.frame_type is None else int(e.frame_type))
+                    raise
+            if real_alpn is not None:
+                ctx.alpn_cb = alpn
+            if real_fetch is not None:
+                def fetch(label):
+                    t = real_fetch(label)
+                    me._cur()["ticket"] = int(t.cipher_suite) if (t is not None and t.is_valid) else -1
+                    return t
+                ctx.get_session_ticket_cb = fetch
+        return self
+
+    def uninstall(self):
+        tls, ctx = self.tls, self.ctx
+        for name in ("_handle_reassembled_message", "handle_message"):
+            if name in ctx.__dict__:
+                del ctx.__dict__[name]
+        tls.decode_public_key = self.real_decode
+        tls.verify_certificate = self.real_verify
+        if self._cbs is not None:
+            ctx.alpn_cb, ctx.get_session_ticket_cb = self._cbs
+
+
+class ClassRecorder(Recorder):
+    """The same recording for WHATEVER tls.Context a QuicConnection uses during one receive_datagram() call -- including one
+    created inside the call by _initialize() (server first flight, Retry, Version Negotiation): the hooks are installed on the
+    tls.Context class and on the connection's callbacks (_alpn_handler, _session_ticket_fetcher)."""
+
+    def __init__(self, tls, conn):
+        super().__init__(tls, None)
+        self.conn = conn
+
+    def install(self):
+        from aioquic.quic.connection import QuicConnectionError
+        tls, me, conn = self.tls, self, self.conn
+        C = tls.Context
+        real_handle, real_dispatch = C.handle_message, C._handle_reassembled_message
+        self.real_decode = real_decode = tls.decode_public_key
+        self.real_verify = real_verify = tls.verify_certificate
+        self._class = (real_handle, real_dispatch)
+
+        def handle(ctx, data, output_buf):
+            me.ctx = ctx
+            me.records = []
+            me.calls.append(me.records)
+            try:
+                return real_handle(ctx, data, output_buf)
+            except tls.AlertHandshakeFailure as e:
+                if "PSK validation failed" in str(e) and me.records:
+                    me.records[-1]["binder"] = 0
+                raise
+
+        def dispatch(ctx, message_type, input_buf, output_buf):
+            me.ctx = ctx
+            me._new_record(message_type, input_buf)
+            return real_dispatch(ctx, message_type=message_type, input_buf=input_buf, output_buf=output_buf)
+
+        def decode(key_share):
+            try:
+                pk = real_decode(key_share)
+            except tls.AlertIllegalParameter:
+                me.rec.setdefault("share", []).append(1)
+                raise
+            me.rec.setdefault("share", []).append(0 if (pk is None or _exchange_ok(pk)) else 2)
+            return pk
+
+        def verify(**kw):
+            try:
+                real_verify(**kw)
+            except tls.AlertCertificateExpired:
+                me.rec["vcert"] = 1
+                raise
+            except tls.AlertBadCertificate:
+                me.rec["vcert"] = 2
+                raise
+            except Exception as e:
+                me.rec["vcert"] = 5 if type(e).__name__ == "CertificateError" else 4
+                raise
+
+        C.handle_message = handle
+        C._handle_reassembled_message = dispatch
+        tls.decode_public_key = decode
+        tls.verify_certificate = verify
+        real_alpn = conn._alpn_handler
+        real_fetch = conn._session_ticket_fetcher
+
+        def alpn(proto):
+            try:
+                return real_alpn(proto)
+            except QuicConnectionError as e:
+                if int(e.error_code) != 0x100 + 109:
+                    me.rec["tp"] = (int(e.error_code), -1 if e.frame_type is None else int(e.frame_type))
+                raise
+        conn._alpn_handler = alpn
+        self._had_tls = getattr(conn, "tls", None)
+        if self._had_tls is not None:
+            self._old_cb = (self._had_tls.alpn_cb, self._had_tls.get_session_ticket_cb)
+            self._had_tls.alpn_cb = alpn
+        if real_fetch is not None:
+            def fetch(label):
+                t = real_fetch(label)
+                me.rec["ticket"] = int(t.cipher_suite) if (t is not None and t.is_valid) else -1
+                return t
+            conn._session_ticket_fetcher = fetch
+            if self._had_tls is not None:
+                self._had_tls.get_session_ticket_cb = fetch
+        self._real_cbs = (real_alpn, real_fetch)
+        return self
+
+    def uninstall(self):
+        tls, conn = self.tls, self.conn
+        C = tls.Context
+        C.handle_message, C._handle_reassembled_message = self._class
+        tls.decode_public_key = self.real_decode
+        tls.verify_certificate = self.real_verify
+        for name in ("_alpn_handler", "_session_ticket_fetcher"):
+            if name in conn.__dict__ and callable(conn.__dict__[name]) and getattr(conn.__dict__[name], "__name__", "") in ("alpn", "fetch"):
+                del conn.__dict__[name]
+        real_alpn, real_fetch = self._real_cbs
+        if real_fetch is not None:
+            conn._session_ticket_fetcher = real_fetch
+        cur = getattr(conn, "tls", None)
+        if cur is not None:
+            cur.alpn_cb = conn._alpn_handler
+            if real_fetch is not None:
+                cur.get_session_ticket_cb = real_fetch
+
+
+def run_real(world, data):
+    """Feed `data` to the subject.  Returns (oracle records, outcome tokens, exception or None)."""
+    from aioquic.quic.connection import QuicConnectionError
+    tls = world.tls
+    ctx = world.subject
+    rec = Recorder(tls, ctx, holder=world).install()
     exc = None
     try:
         try:
             ctx.handle_message(data, world.bufs[world.side])
         finally:
-            del ctx._handle_reassembled_message
-            tls.decode_public_key = real_decode
-            tls.verify_certificate = real_verify
+            rec.uninstall()
         out = [0, 0, 0, ctx.state.value, len(ctx._receive_buffer), int(ctx._session_resumed),
                int(ctx._peer_certificate is not None), _ks_generation(ctx)]
     except tls.Alert as e:
         exc = e
         out = [1, int(e.description), 0]
-        if isinstance(e, tls.AlertHandshakeFailure) and "PSK validation failed" in str(e) and records:
-            records[-1]["binder"] = 0
     except QuicConnectionError as e:
         exc = e
         out = [2, int(e.error_code), int(e.frame_type if e.frame_type is not None else -1)]
     except Exception as e:  # noqa: BLE001 -- the observable IS the exception class
         exc = e
         out = [3, EXN.get(type(e).__name__, 9), 0]
+    records = rec.calls[0] if rec.calls else []
     for b in world.bufs[world.side].values():
         b.seek(0)
     return records, out, exc
